@@ -2,7 +2,8 @@
    Property theorems only.  Models: NV.Io.Sched (generic ticket pipeline: bounded channel of
    tickets, FIFO pool start, completion in ANY order, in-order consumer that may stop),
    NV.Bgzf.MtWriter (multithreaded_writer.rs + builder.rs next to io::Writer) and NV.Bgzf.MtReader
-   (multithreaded_reader.rs next to io::Reader, one run segment read to the end).
+   (multithreaded_reader.rs next to io::Reader, one run segment read to the end; the reader after
+   the repairs of mtr-frame-error-discarded-by-pause and mtr-read-hangs-after-buffer-count-corrupt-blocks).
    A schedule is an arbitrary list of actions (Submit | Start | Complete t | Take | Emit); disabled
    actions are no-ops, so the theorems quantify over every interleaving and completion order. *)
 From Coq Require Import List Arith Bool NArith.
@@ -15,18 +16,18 @@ Import ListNotations.
    the consumer is in exactly the state the sequential loop reaches over the items in submission
    order (and stops where the sequential loop stops). *)
 Theorem pipeline_output_is_submission_order :
-  forall (item res cst : Type) (f : item -> res) (cstep : cst -> res -> cst) (stopped : cst -> bool)
+  forall (item res cst : Type) (f : item -> res) (ready : item -> bool) (cstep : cst -> res -> cst) (stopped : cst -> bool)
          (can_submit : nat -> bool -> bool) (pool : nat) (c0 : cst) (xs : list item) (sched : list act),
-    final stopped (run f cstep stopped can_submit pool c0 xs sched) = true ->
-    cs (run f cstep stopped can_submit pool c0 xs sched) = st_consume cstep stopped c0 (map f xs).
+    final stopped (run f ready cstep stopped can_submit pool c0 xs sched) = true ->
+    cs (run f ready cstep stopped can_submit pool c0 xs sched) = st_consume cstep stopped c0 (map f xs).
 Proof. exact SchedProofs.pipeline_output_is_submission_order. Qed.
 Print Assumptions pipeline_output_is_submission_order.
 
 (* ... and in every reachable state the consumer has processed exactly a prefix, in order *)
 Theorem pipeline_prefix_invariant :
-  forall (item res cst : Type) (f : item -> res) (cstep : cst -> res -> cst) (stopped : cst -> bool)
+  forall (item res cst : Type) (f : item -> res) (ready : item -> bool) (cstep : cst -> res -> cst) (stopped : cst -> bool)
          (can_submit : nat -> bool -> bool) (pool : nat) (c0 : cst) (xs : list item) (sched : list act),
-    let s := run f cstep stopped can_submit pool c0 xs sched in
+    let s := run f ready cstep stopped can_submit pool c0 xs sched in
     exists rest, xs = cons s ++ rest /\ cs s = st_consume cstep stopped c0 (map f (cons s)).
 Proof. exact SchedProofs.prefix_invariant. Qed.
 Print Assumptions pipeline_prefix_invariant.
@@ -34,57 +35,57 @@ Print Assumptions pipeline_prefix_invariant.
 (* progress: every reachable non-final state has an enabled action (pool >= 1, an empty window
    admits a submission): no deadlock between the bounded channel, the pool and the consumer *)
 Theorem c03_progress :
-  forall (item res cst : Type) (f : item -> res) (cstep : cst -> res -> cst) (stopped : cst -> bool)
+  forall (item res cst : Type) (f : item -> res) (ready : item -> bool) (cstep : cst -> res -> cst) (stopped : cst -> bool)
          (can_submit : nat -> bool -> bool) (pool : nat),
     0 < pool -> can_submit 0 false = true ->
     forall (c0 : cst) (xs : list item) (sched : list act),
-      final stopped (run f cstep stopped can_submit pool c0 xs sched) = false ->
-      exists a, enabled stopped can_submit pool (run f cstep stopped can_submit pool c0 xs sched) a = true.
+      final stopped (run f ready cstep stopped can_submit pool c0 xs sched) = false ->
+      exists a, enabled stopped can_submit pool (run f ready cstep stopped can_submit pool c0 xs sched) a = true.
 Proof. exact SchedProofs.pipeline_progress. Qed.
 Print Assumptions c03_progress.
 
 (* the measure 5|todo| + 2|chan| + |hold| + 2|pending| + |running| strictly decreases along every
    enabled action ... *)
 Theorem c03_measure_decreases :
-  forall (item res cst : Type) (f : item -> res) (cstep : cst -> res -> cst) (stopped : cst -> bool)
+  forall (item res cst : Type) (f : item -> res) (ready : item -> bool) (cstep : cst -> res -> cst) (stopped : cst -> bool)
          (can_submit : nat -> bool -> bool) (pool : nat),
     0 < pool -> forall (s : st item cst) (a : act),
     enabled stopped can_submit pool s a = true ->
-    measure (step f cstep stopped can_submit pool s a) < measure s.
+    measure (step f ready cstep stopped can_submit pool s a) < measure s.
 Proof. exact SchedProofs.step_measure. Qed.
 Print Assumptions c03_measure_decreases.
 
 (* ... hence any strategy that keeps choosing enabled actions (one exists by c03_progress) reaches
    a final state within 5 * |items| steps: finish()/join returns. *)
 Theorem c03_finish_terminates :
-  forall (item res cst : Type) (f : item -> res) (cstep : cst -> res -> cst) (stopped : cst -> bool)
+  forall (item res cst : Type) (f : item -> res) (ready : item -> bool) (cstep : cst -> res -> cst) (stopped : cst -> bool)
          (can_submit : nat -> bool -> bool) (pool : nat),
     0 < pool ->
     forall (pick : st item cst -> act) (c0 : cst) (xs : list item),
       (forall s, wf item cst s -> final stopped s = false -> enabled stopped can_submit pool s (pick s) = true) ->
-      final stopped (iter f cstep stopped can_submit pool pick (5 * length xs) (init c0 xs)) = true.
+      final stopped (iter f ready cstep stopped can_submit pool pick (5 * length xs) (init c0 xs)) = true.
 Proof. exact SchedProofs.pipeline_terminates. Qed.
 Print Assumptions c03_finish_terminates.
 
 (* window bound: never more than W outstanding tickets, never more than [pool] running tasks *)
 Theorem c03_window_bound :
-  forall (item res cst : Type) (f : item -> res) (cstep : cst -> res -> cst) (stopped : cst -> bool)
+  forall (item res cst : Type) (f : item -> res) (ready : item -> bool) (cstep : cst -> res -> cst) (stopped : cst -> bool)
          (can_submit : nat -> bool -> bool) (pool : nat),
     0 < pool ->
     forall W : nat,
       (forall n h, can_submit n h = true -> n + length (olist (if h then Some tt else None)) < W) ->
       forall (c0 : cst) (xs : list item) (sched : list act),
-        bounded item cst pool W (run f cstep stopped can_submit pool c0 xs sched).
+        bounded item cst pool W (run f ready cstep stopped can_submit pool c0 xs sched).
 Proof. exact SchedProofs.pipeline_window_bound. Qed.
 Print Assumptions c03_window_bound.
 
 (* the scheduler the harness forces through the gate (release order -> schedule) is one of the
    schedules the theorems quantify over *)
 Theorem c03_drive_is_a_schedule :
-  forall (item res cst : Type) (f : item -> res) (cstep : cst -> res -> cst) (stopped : cst -> bool)
+  forall (item res cst : Type) (f : item -> res) (ready : item -> bool) (cstep : cst -> res -> cst) (stopped : cst -> bool)
          (can_submit : nat -> bool -> bool) (pool fuel : nat) (s : st item cst) (rel : list nat),
-    fst (drive f cstep stopped can_submit pool fuel s rel)
-    = fold_left (step f cstep stopped can_submit pool) (snd (drive f cstep stopped can_submit pool fuel s rel)) s.
+    fst (drive f ready cstep stopped can_submit pool fuel s rel)
+    = fold_left (step f ready cstep stopped can_submit pool) (snd (drive f ready cstep stopped can_submit pool fuel s rel)) s.
 Proof. exact SchedProofs.drive_is_run. Qed.
 Print Assumptions c03_drive_is_a_schedule.
 
@@ -134,7 +135,7 @@ Print Assumptions c03_error_surfaces.
 Theorem c03_writer_finish_terminates :
   forall (chunk : Type) (frame_of : blk -> list chunk) (fail_at : option nat) (P : nat),
     0 < P -> forall ops,
-    w_final chunk (iter frame_of (write_frame fail_at) serr (w_can_submit P) P
+    w_final chunk (iter frame_of w_ready (write_frame fail_at) serr (w_can_submit P) P
                         (default_pick serr (w_can_submit P) P)
                         (5 * length (stage ops)) (w_init chunk ops)) = true.
 Proof. exact writer_finish_terminates_default. Qed.
@@ -160,13 +161,11 @@ Print Assumptions c03_writer_window.
 Definition c03_reader_equals_st_full_statement : Prop :=
   forall (P : nat) (segments : list (list frame * nat * list act)),
     Forall (fun seg => let '(frames, k, sched) := seg in
-              frame_error frames = false ->
               length (cons (r_run P frames sched)) = k ->
               cs (r_run P frames sched) = st_reader app0 (firstn k frames)) segments.
 
 Theorem c03_reader_equals_st_partial :
   forall (P : nat) (frames : list frame) (sched : list act),
-    frame_error frames = false ->
     r_final (r_run P frames sched) = true ->
     cs (r_run P frames sched) = st_reader app0 frames.
 Proof. exact reader_equals_st. Qed.
@@ -197,22 +196,21 @@ Theorem c03_reader_error_surfaces :
 Proof. exact reader_error_surfaces. Qed.
 Print Assumptions c03_reader_error_surfaces.
 
-(* a frame-level error (candidate F9): same data and positions as the single-threaded reader, which
-   returns the error from read; the multithreaded reader reports it from finish() *)
-Theorem c03_reader_frame_error_from_finish :
+(* a frame-level error (truncated frame, BSIZE < 25; candidate F9, repaired in /repo by
+   "fix: bgzf MultithreadedReader reported a truncated or malformed frame as a clean EOF"): the
+   read that reaches the bad frame returns the error under every schedule, as in io::Reader
+   (c03_reader_equals_st_partial covers data and positions) *)
+Theorem c03_reader_frame_error_from_read :
   forall (P : nat) (frames : list frame) (sched : list act),
     frame_error frames = true ->
     r_final (r_run P frames sched) = true ->
-    let a := cs (r_run P frames sched) in
-    let b := st_reader app0 frames in
-    got a = got b /\ apos a = apos b /\ bpos a = bpos b /\ bsize a = bsize b /\
-    rerr b = true /\ (rerr a = false -> snd (robs frames a) = true).
-Proof. exact reader_frame_error_from_finish. Qed.
-Print Assumptions c03_reader_frame_error_from_finish.
+    rerr (cs (r_run P frames sched)) = true.
+Proof. exact reader_frame_error_from_read. Qed.
+Print Assumptions c03_reader_frame_error_from_read.
 
 Theorem c03_reader_terminates :
   forall P, 0 < P -> forall frames,
-    r_final (iter (fun fr => fr) app_step rerr (r_can_submit P) P (default_pick rerr (r_can_submit P) P)
+    r_final (iter (fun fr => fr) r_ready app_step rerr (r_can_submit P) P (default_pick rerr (r_can_submit P) P)
                   (5 * length (submitted frames)) (init app0 (submitted frames))) = true.
 Proof. exact reader_terminates_default. Qed.
 Print Assumptions c03_reader_terminates.
@@ -252,4 +250,12 @@ Example c03_reader_corrupt_block :
   c03_reader_model 4 [mk_frame 0 50 100 Good; mk_frame 1 28 0 Good; mk_frame 2 60 200 BadBlock; mk_frame 3 28 0 Good]%N
                    [3; 2; 1; 0]
   = Some ([(0, 100)]%N, 78%N, true, false).
+Proof. vm_compute; reflexivity. Qed.
+
+(* reader: a truncated third frame: its error ticket needs no pool task, so the release order only
+   names the two inflate tasks; the error surfaces from read after the two good blocks *)
+Example c03_reader_truncated_frame :
+  c03_reader_model 2 [mk_frame 0 50 100 Good; mk_frame 1 60 200 Good; mk_frame 2 70 300 BadFrame; mk_frame 3 28 0 Good]%N
+                   [1; 0]
+  = Some ([(0, 100); (1, 200)]%N, 110%N, true, false).
 Proof. vm_compute; reflexivity. Qed.
